@@ -122,8 +122,6 @@ func VerifC07_Messages() {
 	verifReach("C07/messages/started")
 	// the message grammar is explored under the run-until-block schedule; VerifC07_Schedules varies the schedule
 	verifSchedBound(0)
-	// any failing step (behaviour, unknown step, rejected input) can hit the known shutdown defect
-	verifKnown("C07/send-on-closed-workdone", true)
 	k := 2
 	expected := map[string]int{}
 	runs := [3]string{"r1", "r2", "r3"}
@@ -178,11 +176,8 @@ func VerifC07_Messages() {
 	c.readDone.Wait()
 	verifAssert("C07/messages/hello", c.helloOK)
 	for _, run := range runs {
-		if !clientDone {
-			verifAssert("C07/messages/exactly-one-terminal-message-per-accepted-run", c.terminals[run] == expected[run])
-		} else {
-			verifAssert("C07/messages/at-most-one-terminal-message-per-accepted-run", c.terminals[run] <= expected[run])
-		}
+		// also when client-done follows the work-start at once: the output stays open until the server returns
+		verifAssert("C07/messages/exactly-one-terminal-message-per-accepted-run", c.terminals[run] == expected[run])
 	}
 	verifObserve("errors", len(c.srvErrs))
 	verifReach("C07/messages/end")
@@ -193,7 +188,6 @@ func VerifC07_Schedules() {
 	mode := nondetChoice("behaviour", behaveCount)
 	c := verifStartRawClient(verifBehavingPlugin(mode, nil))
 	verifReach("C07/schedules/started")
-	verifKnown("C07/send-on-closed-workdone", mode != behaveOK)
 	_ = c.enc.Encode(RuntimeMessage{MessageTypeWorkStart, "r1", WorkStartMessage{StepID: "inc", Config: map[string]any{"n": nondetInt64("n1")}}})
 	_ = c.enc.Encode(RuntimeMessage{MessageTypeSignal, "r1", SignalMessage{SignalID: "sig", Data: map[string]any{}}})
 	_ = c.enc.Encode(RuntimeMessage{MessageTypeWorkStart, "r2", WorkStartMessage{StepID: "inc", Config: map[string]any{"n": nondetInt64("n2")}}})
@@ -214,10 +208,10 @@ func VerifC07_EndOfInputWhileRunning() {
 	release := make(chan struct{})
 	c := verifStartRawClient(verifBehavingPlugin(mode, release))
 	verifReach("C07/eoi/started")
-	verifKnown("C07/send-on-closed-workdone", mode != behaveOK)
 	_ = c.enc.Encode(RuntimeMessage{MessageTypeWorkStart, "r1", WorkStartMessage{StepID: "inc", Config: map[string]any{"n": nondetInt64("n")}}})
 	verifSettle()
-	if nondetBool("clientDone") {
+	orderly := nondetBool("clientDone")
+	if orderly {
 		_ = c.enc.Encode(RuntimeMessage{MessageTypeClientDone, "", clientDoneMessage{}})
 	} else {
 		_ = c.toSrvW.Close()
@@ -226,7 +220,14 @@ func VerifC07_EndOfInputWhileRunning() {
 	close(release) // the step finishes only now
 	c.srvDone.Wait()
 	c.readDone.Wait()
-	verifAssert("C07/eoi/at-most-one-terminal", c.terminals["r1"] <= 1)
+	if orderly {
+		verifAssert("C07/eoi/exactly-one-terminal", c.terminals["r1"] == 1)
+	} else {
+		// an abrupt end of input is reported as a server-fatal error, which ends every run at the client; a
+		// per-run terminal message may still follow (the step succeeds) but is no longer owed
+		verifAssert("C07/eoi/at-most-one-terminal-after-abrupt-end", c.terminals["r1"] <= 1)
+		verifAssert("C07/eoi/abrupt-end-reported", c.others >= 1)
+	}
 	verifObserve("terminals", c.terminals["r1"])
 	verifReach("C07/eoi/end")
 }
